@@ -305,7 +305,7 @@ def handle (st : St) (fs : List String) : St × String :=
         let id := nodeOf st.P f a
         let (I2, r) := visit fuelD st.P I1 id
         let I2 := { I2 with stack := [], tainted := I2.tainted || (match r with | .panic _ => true | _ => false) }
-        let strictOk (n : NodeId) : Bool := match evalSS fuelD st.P I2.σ.vals I2.σ.maps [] n with | .ok _ => true | .panic _ => false
+        let strictOk (n : NodeId) : Bool := match evalS fuelD st.P I2.σ.vals I2.σ.maps [] n with | .ok _ => true | .panic _ => false
         let cleanNow := st.cleanSoFar && strictOk id && st.s.derived.all (fun p => strictOk p.1)
         let (v1, mismatch) := c01Call st I2 id impl
         let v1 := if mismatch && cleanNow then v1 ++ ":CLEAN" else v1
